@@ -48,6 +48,7 @@ class ModelSpec(Spec):
     formats = ()
     check_meta = True
     init_ops = ()
+    api_probe = False
     contents = CONTENTS
     docs = DOCS
 
@@ -115,6 +116,13 @@ class ModelSpec(Spec):
         if any(ll.values()):
             viol.append(({"kind": "locked", "op": op[0], "what": "identifier left locked"},
                          {"lists": ll, "state": _mkey(m0), "call": O.name(op)}))
+        if self.api_probe and not (vs or vs2):
+            for pid in self.pids:
+                po = O.run(store, ("retrieve", pid), self.ctx)
+                pv = m.copy().step(("retrieve", pid), po, self.ctx)
+                for s in pv:
+                    viol.append(({"kind": "probe", "op": op[0], "what": "after the call retrieve_object: " + _generic(s)},
+                                 {"detail": s, "pid": pid, "state": _mkey(m0), "call": O.name(op)}))
         for sig, det in self.extra_checks(m0, m, op, out, tree, t2, a, store):
             viol.append((sig, det))
         after = plain_attrs(store)
